@@ -302,34 +302,53 @@ func (b Branch) CopyEmpty() *Branch {
 	}
 }
 
+// IntersectHash returns the hash of the last header that is in the ancestry of both branches. The
+// branches can be parent and child, siblings, or any more distant relatives.
 func (b *Branch) IntersectHash(other *Branch) *bitcoin.Hash32 {
-	current := b
-	for {
-		if current.parent == nil {
-			break
-		}
-
-		if current.parent == other {
-			return &current.firstHeader.PrevBlock
-		}
-
-		current = current.parent
+	// forkPoint is the last header of an ancestor branch that is still in the ancestry of a
+	// descendant branch. nil means the whole ancestor branch is in the ancestry.
+	type forkPoint struct {
+		height int
+		hash   *bitcoin.Hash32
 	}
 
-	current = other
-	for {
-		if current.parent == nil {
-			break
+	// Collect the fork points of all the branches in the ancestry of "b".
+	forks := make(map[*Branch]*forkPoint)
+	forks[b] = nil
+	for current := b; current.parent != nil; current = current.parent {
+		forks[current.parent] = &forkPoint{
+			height: current.parentHeight,
+			hash:   &current.firstHeader.PrevBlock,
 		}
-
-		if current.parent == b {
-			return &current.firstHeader.PrevBlock
-		}
-
-		current = current.parent
 	}
 
-	return nil
+	// Walk up the ancestry of "other" until a branch that is also in the ancestry of "b" is found.
+	// The intersect is the lower of the two fork points in that branch.
+	var otherFork *forkPoint
+	current := other
+	for {
+		if fork, exists := forks[current]; exists {
+			if fork == nil || (otherFork != nil && otherFork.height < fork.height) {
+				fork = otherFork
+			}
+
+			if fork == nil {
+				return nil // same branch
+			}
+
+			return fork.hash
+		}
+
+		if current.parent == nil {
+			return nil // not related
+		}
+
+		otherFork = &forkPoint{
+			height: current.parentHeight,
+			hash:   &current.firstHeader.PrevBlock,
+		}
+		current = current.parent
+	}
 }
 
 // Consolidate creates a new branch that contains all the headers from the current branch back to
